@@ -16,6 +16,9 @@ def families(tier, seed):
             if feats.get("edges") and solver == "euler":
                 continue          # fixed-step delayed edges use the ring buffer (C09), not hist
             out.append(dict(tag=f"{tag}/field/{solver}", features=dict(feats, solver=solver), kind="dde_field", model=model, solver=solver, seed=seed))
+            if feats.get("edges"):
+                out.append(dict(tag=f"{tag}/field-vec/{solver}", features=dict(feats, solver=solver, vec=True), kind="dde_field", model=model,
+                                solver=solver, seed=seed, vec=True))
         for solver in (("scipy", "euler") if tier == "quick" else ("scipy", "euler", "heun")):
             if feats.get("edges") and solver != "scipy":
                 continue
@@ -27,19 +30,29 @@ def families(tier, seed):
 
 
 def main():
-    chk = Check("C10", "exploration")
+    chk = Check("C10", "other")
+    # deductive core: the history object is the piecewise-linear interpolant with constant pre-history (DDEHistory contracts), and
+    # the fixed-step loops append ((i+1)*dt, y_{i+1}) after every step (DDE variants of the solver-loop contracts)
+    from checks.c03 import solver_fallback
+    from checks import c19 as _c19
+    chk.run_contracts("contracts.c19", fallback={"*": _c19.bounded(chk, "native-contracts-on-scripted-histories")})
+    chk.run_contracts("contracts.c03", names=["BaseBackend._solve_euler[dde]", "BaseBackend._solve_heun[dde]"],
+                      fallback={"*": solver_fallback(chk)})
     driver.run_family(
         chk, "delayed-terms-vs-history", families(chk.tier, chk.seed), cases.case_fn, site="C10/dde",
         rule="models with past(x, tau): one delay on the first variable, on the second variable, two delays on two variables, one "
              "variable at two delays, a product with a delayed factor, a negative coefficient; delayed edges (two delays from one "
-             "source) under an adaptive solver; (1) the compiled function called with a hand-made smooth history H(t): derivative == "
+             "source; a delayed and an undelayed sibling; a sibling delay below the step size; vectorize off and on) under an adaptive solver; (1) the compiled function called with a hand-made smooth history H(t): derivative == "
              "spec with component x of H(t - tau), t in time units for adaptive AND fixed-step code (step counter * dt); (2) run "
              "(scipy; thorough: euler, heun) against an RK4 method-of-steps reference with constant pre-history; distinct = (model, kind, solver)",
         sample_of=lambda c: {k: v for k, v in c.items() if k != "features"})
     rc = chk.finish(
-        explanation="Bounded. The unbounded parts of C10 are discharged elsewhere: DDEHistory is the piecewise-linear interpolant "
-                    "(C19, proof) and the fixed-step loops append ((i+1)*dt, y_{i+1}) after every step (C03, deductive).",
-        assumptions=["spec_rhs with hist (harness)", "method-of-steps reference: RK4, h = 1e-3, linear history interpolation"])
+        explanation="Deductive core: DDEHistory returns the initial state before the start and the linear interpolant of the recorded "
+                    "trajectory afterwards (class invariant + method contracts), and the fixed-step loops append ((i+1)*dt, y_{i+1}) "
+                    "after every step through DDEHistory.update's contract. Bounded: the compiled function evaluates each delayed "
+                    "term as component x of hist(t - tau) for hand-made histories; run() against a method-of-steps reference.",
+        assumptions=["as for C19/C03 (floats as reals, one representative component, documented bisect_right / np.empty contracts)",
+                     "spec_rhs with hist (harness)", "method-of-steps reference: RK4, h = 1e-3, linear history interpolation"])
     sys.exit(rc)
 
 
